@@ -31,6 +31,8 @@ import (
 	"github.com/dadrus/heimdall/internal/x/stringx"
 )
 
+var ErrEnvSubstitution = errors.New("environment variable substitution failed")
+
 var ErrUnsupportedKeyType = errors.New("unsupported key type")
 
 var ErrEmptyRuleSet = errors.New("empty rule set")
@@ -72,7 +74,7 @@ func parseYAML(reader io.Reader, envUsageEnabled bool) (*RuleSet, error) {
 				"failed to read rule set").CausedBy(err)
 		}
 
-		content, err := envsubst.EvalEnv(stringx.ToString(raw))
+		content, err := evalEnv(stringx.ToString(raw))
 		if err != nil {
 			return nil, errorchain.NewWithMessage(heimdall.ErrConfiguration,
 				"failed to evaluate env variables in rule set").CausedBy(err)
@@ -122,4 +124,17 @@ func ensureStringKeys(value any, path string) error {
 	}
 
 	return nil
+}
+
+func evalEnv(content string) (result string, err error) {
+	// some expansions, like a substring with a negative length, make the substitution panic. A rule set
+	// with such must be rejected and not terminate the process (rule sets are loaded also on goroutines
+	// without recovery)
+	defer func() {
+		if rec := recover(); rec != nil {
+			err = fmt.Errorf("%w: %v", ErrEnvSubstitution, rec)
+		}
+	}()
+
+	return envsubst.EvalEnv(content)
 }
